@@ -208,36 +208,50 @@ def wildcardDotNL (re : Re) : Bool :=
 
 /-! ### ExtractFirstBytes
 
-  After the fix of nfa/firstbytes.go (full `SimpleFold` orbit of a `FoldCase` literal, UTF-8 lead byte of a non-ASCII
-  literal, every byte `≥ 0x80` for a class reaching above U+007F) the case-sensitivity / ASCII restrictions of the former
-  fragment are gone.  What is left is structural: the Go function still answers `true` WITHOUT adding a byte (and without
-  clearing `complete`) when the node in first position is a zero-width assertion.  `fbFrag` describes the accepted
-  patterns on which that is harmless:
-    * no `^` / `\A` / `(?m)$` in FIRST position other than as a leading element of a concatenation (which the Go loop
-      skips: `(?:^)a` is fine, `(^)a`, `a|^`, `(?m)a|$` are not).  `\z` / non-multiline `$` in first position IS allowed:
-      it only matches at the end of the haystack, and every caller guards the filter with `len(haystack) > 0`;
-    * a literal's first rune is not U+FFFD: the reference matcher (like `regexp`) decodes every ill-formed byte as
-      U+FFFD, so the literal `\x{FFFD}` matches the haystack `FF`, whose first byte is not `EF`;
-    * `{n,…}` has `n > 0` (the Go code tests `Min == 0`; a negative `Min` is never parsed).
-  Same fuel discipline as `extractFirstBytesRec`. -/
-def fbFrag : Nat → Re → Bool
-  | 0, _ => false
+  After the fixes of nfa/firstbytes.go — full `SimpleFold` orbit of a `FoldCase` literal, UTF-8 lead byte of a non-ASCII
+  literal, every byte `≥ 0x80` for a class reaching above U+007F; and: a bare assertion makes the set unusable, a
+  concatenation skips its leading assertion-only elements — NO structural restriction of the pattern is left: the
+  former exclusions (`^`, `\A`, `(?m)$` in first position other than as a leading element of a concatenation) are gone.
+  What remains are two side conditions on the nodes the extraction visits (the nodes in FIRST position), `fbSide`:
+    * PARSER INVARIANT (always required, `fbMinOK`): `{n,…}` has `n ≥ 0` (the Go code tests `Min == 0`; `syntax.Parse`
+      never produces a negative `Min`, and the reference matcher reads one as 0);
+    * (`fbFrag` = `fbMinOK` and:) a literal's first rune is not U+FFFD.  This is a property of the REFERENCE semantics,
+      not of the filter: the reference matcher (like `regexp`) decodes every ill-formed byte as U+FFFD, so the literal
+      `\x{FFFD}` matches the haystack `FF`, whose first byte is not `EF` (`firstBytes_runeError_counterexample`).
+      coregex's own engines compile the literal to the bytes EF BF BD and never match `FF`, so the filter changes no
+      coregex answer there.  The condition can be traded for one on the HAYSTACK: it begins with a well-formed rune
+      (`WellFormedAt h 0`; `firstBytes_filter_sound_wellformed`).
+  Everything else is `true`: in particular every pattern without a U+FFFD literal, as `syntax.Parse` returns it,
+  satisfies `fbFrag`, and every parsed pattern satisfies `fbMinOK`.  Same fuel discipline as `extractFirstBytesRec`. -/
+
+/-- the side conditions; `lit = true` includes "no literal in first position starts with U+FFFD" -/
+def fbSide (lit : Bool) : Nat → Re → Bool
+  | 0, _ => true
   | fuel+1, re =>
     match re.op with
-    | .literal => (match re.rune with | r :: _ => decide (r ≠ Utf8.runeError) | [] => false)
-    | .charClass => true
-    | .anyCharNotNL => true
-    | .anyChar => true
-    | .endText => true
-    | .capture => match re.sub with | [x] => fbFrag fuel x | _ => false
+    | .literal => (match re.rune with | r :: _ => !lit || decide (r ≠ Utf8.runeError) | [] => true)
+    | .capture => (match re.sub with | [x] => fbSide lit fuel x | _ => true)
     | .concat =>
-      match re.sub.find? (fun s => !(decide (s.op = .beginLine) || decide (s.op = .beginText))) with
-      | some x => fbFrag fuel x
-      | none => false
-    | .alternate => re.sub.all (fbFrag fuel)
-    | .plus => match re.sub with | [x] => fbFrag fuel x | _ => false
-    | .repeat_ => decide (re.min > 0) && (match re.sub with | [x] => fbFrag fuel x | _ => false)
-    | _ => false
+      match re.sub.find? (fun s => !isAssertionOnly s) with
+      | some x => fbSide lit fuel x
+      | none => true
+    | .alternate => re.sub.all (fbSide lit fuel)
+    | .plus => (match re.sub with | [x] => fbSide lit fuel x | _ => true)
+    | .repeat_ => decide (re.min ≥ 0) && (match re.sub with | [x] => fbSide lit fuel x | _ => true)
+    | _ => true
+
+/-- no negative `Min` and no literal starting with U+FFFD in first position -/
+def fbFrag (fuel : Nat) (re : Re) : Bool := fbSide true fuel re
+
+/-- no negative `Min` in first position (parser invariant) -/
+def fbMinOK (fuel : Nat) (re : Re) : Bool := fbSide false fuel re
+
+/-- the haystack does not have an ill-formed byte at `pos` (one that `utf8.DecodeRune` reports as U+FFFD of width 1);
+    a properly encoded U+FFFD (EF BF BD, width 3) is well-formed -/
+def WellFormedAt (h : Bytes) (pos : Nat) : Prop :=
+  ¬ ((Utf8.decodeAt h pos).1 = Utf8.runeError ∧ (Utf8.decodeAt h pos).2 = 1)
+
+instance (h : Bytes) (pos : Nat) : Decidable (WellFormedAt h pos) := by unfold WellFormedAt; exact inferInstance
 
 /-- the parameter `foldOrbit` (standing for the `unicode.SimpleFold` loop) lists at least the case variants the
     reference matcher folds (`Ref.foldEq`: the ASCII letters).  True of Go's tables (`simpleFoldOrbit_sound` in
